@@ -233,9 +233,9 @@ func (c *Ctx) gqlerrLemma(create, parse *ssa.Function, report bool) {
 	}
 	// ---- lemma first: prune !ok edges of err.(*gqlerror.Error) only where proved
 	if report {
-		c.R.Rule("lemma-gqlerr", "L-gqlerr: the error returned by gqlparser's parser entry point / VariableValues is always nil or a *gqlerror.Error, so the !ok edge of `err.(*gqlerror.Error)` is infeasible (checked on the module-cache source)", 2)
+		c.R.Rule("lemma-gqlerr", "L-gqlerr: the error returned by gqlparser's parser entry point / VariableValues is always nil or a *gqlerror.Error, so the !ok edge of `err.(*gqlerror.Error)` is infeasible (checked on the module-cache source)", 0)
 	}
-	for _, fn := range []*ssa.Function{create, parse} {
+	for _, fn := range c.gateFuncs(create, parse) {
 		for _, b := range fn.Blocks {
 			for _, in := range b.Instrs {
 				ta, ok := in.(*ssa.TypeAssert)
@@ -320,7 +320,7 @@ func c03FailClosed(c *Ctx) {
 	c.gqlerrLemma(create, parse, true)
 
 	c.R.Rule("fail-closed", "for every gate of CreateOperationContext/parseQuery: its result is tested, and every path from the failure edge ends in a return whose error list is non-empty by construction and never reaches queryCache.Add", 8)
-	for _, fn := range []*ssa.Function{create, parse} {
+	for _, fn := range c.gateFuncs(create, parse) {
 		for _, g := range c.gatesOf(fn) {
 			key := shortFn(fn) + "/gate:" + g.name
 			// find the conditional edges that test the gate's result
@@ -331,6 +331,17 @@ func c03FailClosed(c *Ctx) {
 				}
 			}
 			if len(failEdges) == 0 {
+				// the gate's own result is what the function returns: the caller's gate on this function tests it
+				propagated := false
+				for _, r := range an.Returns(fn) {
+					if n := len(r.Results); n > 0 && g.result(an.ReturnedValue(r, n-1)) {
+						propagated = true
+					}
+				}
+				if _, isHelper := c.validateHelpers()[fn]; isHelper && propagated {
+					c.R.OK(key, c.ipos(g.call), "result returned to the caller, whose gate on "+fn.Name()+" tests it")
+					continue
+				}
 				c.R.Bad(key, c.ipos(g.call), "the gate's result is never tested: its failure cannot stop the request")
 				continue
 			}
@@ -343,10 +354,10 @@ func c03FailClosed(c *Ctx) {
 					for _, in := range b.Instrs {
 						switch x := in.(type) {
 						case *ssa.Return:
-							if len(x.Results) < 2 {
+							if len(x.Results) < 1 || !strings.HasSuffix(x.Results[len(x.Results)-1].Type().String(), "gqlerror.List") {
 								continue
 							}
-							if ok, why := nonEmptyList(x, x.Results[1]); !ok {
+							if ok, why := nonEmptyList(x, x.Results[len(x.Results)-1]); !ok {
 								bad = sprintf("failure edge at %s reaches the return at %s whose error list %s", c.ipos(e.If), c.ipos(x), why)
 							}
 						case ssa.CallInstruction:
@@ -406,28 +417,117 @@ func (c *Ctx) pruneNotOK(ta *ssa.TypeAssert) {
 	}
 }
 
-// isValidateOf: v is the result of validator.Validate*(schema, doc') with doc' the same document as doc.
+// isValidateOf: v is the result of validator.Validate*(schema, doc') with doc' the same document as doc, or of a validation
+// helper of package executor (see validateHelpers) applied to that document.
 func (c *Ctx) isValidateOf(v, doc ssa.Value) bool {
+	return c.isValidateOfDepth(v, doc, true)
+}
+
+func (c *Ctx) isValidateOfDepth(v, doc ssa.Value, helpers bool) bool {
 	for _, d := range an.Defs(v) {
+		if e, ok := d.(*ssa.Extract); ok {
+			d = e.Tuple
+		}
 		call, ok := d.(*ssa.Call)
 		if !ok {
 			return false
 		}
 		n := an.CalleeOf(call).FullName()
-		if !strings.HasPrefix(n, pkgValidator+".Validate") {
+		if strings.HasPrefix(n, pkgValidator+".Validate") {
+			okDoc := false
+			for _, a := range call.Call.Args {
+				if an.SameVar(a, doc) {
+					okDoc = true
+				}
+			}
+			if !okDoc {
+				return false
+			}
+			continue
+		}
+		if !helpers {
 			return false
 		}
-		okDoc := false
-		for _, a := range call.Call.Args {
-			if an.SameVar(a, doc) {
-				okDoc = true
-			}
+		h := call.Call.StaticCallee()
+		idx, isH := c.validateHelpers()[h]
+		if !isH {
+			return false
 		}
-		if !okDoc {
+		// the helper's document parameter receives doc (parameters include the receiver; Args too for static calls)
+		if idx >= len(call.Call.Args) || !an.SameVar(call.Call.Args[idx], doc) {
 			return false
 		}
 	}
 	return true
+}
+
+// validateHelpers: functions of package executor that wrap validation — they take a *ast.QueryDocument (parameter index in
+// the map) and their last result is a gqlerror.List that is empty only if validator.Validate(schema, thatDocument) returned an
+// empty list: every return either returns a list that is non-empty by construction, returns Validate's own result, or is
+// dominated by len(Validate(...)) == 0.  A call of such a helper is a validation gate for its caller.
+func (c *Ctx) validateHelpers() map[*ssa.Function]int {
+	if c.valHelpers != nil {
+		return c.valHelpers
+	}
+	c.valHelpers = map[*ssa.Function]int{}
+	for _, fn := range c.moduleFuncs(func(p string) bool { return p == pkgExecutor }) {
+		if fn.Parent() != nil || len(fn.Blocks) == 0 {
+			continue
+		}
+		res := fn.Signature.Results()
+		if res.Len() == 0 || !strings.HasSuffix(res.At(res.Len()-1).Type().String(), "gqlerror.List") {
+			continue
+		}
+		for i, p := range fn.Params {
+			pt, ok := p.Type().(*types.Pointer)
+			if !ok || !an.NamedIs(pt.Elem(), pkgAST, "QueryDocument") {
+				continue
+			}
+			ok2, nret, usesValidate := true, 0, false
+			for _, r := range an.Returns(fn) {
+				if fn.Recover != nil && r.Block() == fn.Recover {
+					continue
+				}
+				nret++
+				lst := an.ReturnedValue(r, res.Len()-1)
+				if ne, _ := nonEmptyList(r, lst); ne {
+					continue
+				}
+				if c.isValidateOfDepth(lst, p, false) {
+					usesValidate = true
+					continue
+				}
+				dom := false
+				for _, f := range an.Facts(r) {
+					if empty, k := an.EmptinessFact(f, func(v ssa.Value) bool { return c.isValidateOfDepth(v, p, false) }); k && empty {
+						dom = true
+					}
+				}
+				if dom {
+					usesValidate = true
+					continue
+				}
+				ok2 = false
+			}
+			if ok2 && nret > 0 && usesValidate {
+				c.valHelpers[fn] = i
+			}
+		}
+	}
+	return c.valHelpers
+}
+
+// gateFuncs: the functions whose gates are examined: CreateOperationContext, parseQuery and the validation helpers they call.
+func (c *Ctx) gateFuncs(create, parse *ssa.Function) []*ssa.Function {
+	out := []*ssa.Function{create, parse}
+	var hs []*ssa.Function
+	for h := range c.validateHelpers() {
+		if h != create && h != parse {
+			hs = append(hs, h)
+		}
+	}
+	sort.Slice(hs, func(i, j int) bool { return hs[i].Name() < hs[j].Name() })
+	return append(out, hs...)
 }
 
 func (c *Ctx) gatesOf(fn *ssa.Function) []gate {
@@ -467,6 +567,12 @@ func (c *Ctx) gatesOf(fn *ssa.Function) []gate {
 				gs = append(gs, gate{"operation-selected", call, resultIs(call, 0), true})
 			case n == "(*"+pkgExecutor+".Executor).parseQuery":
 				gs = append(gs, gate{"parseQuery", call, resultIs(call, 1), false})
+			default:
+				if h := call.Call.StaticCallee(); h != nil && h != fn {
+					if _, isH := c.validateHelpers()[h]; isH {
+						gs = append(gs, gate{"validate-helper:" + h.Name(), call, resultIs(call, h.Signature.Results().Len()-1), false})
+					}
+				}
 			}
 			// len(doc.Operations) == 0
 			if bi, ok := call.Call.Value.(*ssa.Builtin); ok && bi.Name() == "len" {
